@@ -52,6 +52,250 @@ class _Canon(ast.NodeTransformer):
         return node
 
 
+
+# ---------------------------------------------------------------------------------------------------------------------
+# virtual inlining of private helpers that are called exactly once ("extract helper" is the commonest refactoring:
+# the rules keep looking at the function that implements a mechanism and see the extracted block where it is called)
+
+class _NoInline(Exception):
+    pass
+
+
+def _load_pinned():
+    import json as _json
+    p_ = os.path.join(os.path.dirname(os.path.abspath(__file__)), "pinned_helpers.json")
+    try:
+        with open(p_) as fh:
+            return _json.load(fh)
+    except OSError:
+        return {}
+
+
+PINNED_HELPERS = _load_pinned()
+
+
+def _own_walk(fn):
+    """nodes of a function excluding nested function / class bodies"""
+    todo = list(ast.iter_child_nodes(fn))
+    while todo:
+        n = todo.pop()
+        yield n
+        if not isinstance(n, (ast.FunctionDef, ast.AsyncFunctionDef, ast.ClassDef, ast.Lambda)):
+            todo.extend(ast.iter_child_nodes(n))
+
+
+def _has_return(block):
+    return any(isinstance(x, ast.Return) for s in block for x in ([s] + list(_own_walk(s))) if not isinstance(s, (ast.FunctionDef, ast.ClassDef)))
+
+
+def _always_returns(block):
+    if not block:
+        return False
+    last = block[-1]
+    if isinstance(last, (ast.Return, ast.Raise)):
+        return True
+    if isinstance(last, ast.If) and last.orelse:
+        return _always_returns(last.body) and _always_returns(last.orelse)
+    return False
+
+
+def _tailify(block, sink):
+    out = []
+    for i, s in enumerate(block):
+        if isinstance(s, ast.Return):
+            out.extend(sink(s.value))
+            return out
+        if isinstance(s, ast.If) and (_has_return(s.body) or _has_return(s.orelse)):
+            rest = block[i + 1:]
+            b_ret = _always_returns(s.body)
+            o_ret = _always_returns(s.orelse)
+            if (_has_return(s.body) and not b_ret) or (_has_return(s.orelse) and not o_ret):
+                raise _NoInline("conditional return inside a branch that also falls through")
+            new_body = _tailify(s.body, sink) if b_ret else _tailify(s.body + rest, sink)
+            new_else = _tailify(s.orelse, sink) if o_ret else _tailify(s.orelse + rest, sink)
+            out.append(ast.copy_location(ast.If(test=s.test, body=new_body or [ast.Pass()], orelse=new_else), s))
+            return out
+        if not isinstance(s, (ast.FunctionDef, ast.ClassDef)) and _has_return([s]):
+            raise _NoInline("return inside a loop / try / with")
+        out.append(s)
+    out.extend(sink(None))
+    return out
+
+
+class _RenameLocals(ast.NodeTransformer):
+    def __init__(self, names, suffix):
+        self.names, self.suffix = names, suffix
+
+    def visit_Name(self, n):
+        if n.id in self.names:
+            return ast.copy_location(ast.Name(id=n.id + self.suffix, ctx=n.ctx), n)
+        return n
+
+    def visit_arg(self, n):
+        return n
+
+
+def _inline_helpers(tree, relpath=None, report=False):
+    import copy as _copy
+    pinned = set(PINNED_HELPERS.get(relpath, ())) if relpath else set()
+    inlined_names = []
+
+    def candidates(body, in_class, local=False):
+        for s in body:
+            if isinstance(s, ast.FunctionDef) and ((s.name.startswith("_") and not s.name.startswith("__")) or local):
+                decos = [ast.unparse(d) for d in s.decorator_list]
+                if any(d not in ("staticmethod", "classmethod") for d in decos) or (decos and not in_class):
+                    continue
+                a = s.args
+                if a.vararg or a.kwarg or a.kwonlyargs or a.posonlyargs:
+                    continue
+                if any(isinstance(x, (ast.Yield, ast.YieldFrom, ast.Global, ast.Nonlocal, ast.FunctionDef, ast.AsyncFunctionDef, ast.ClassDef, ast.Lambda, ast.Await))
+                       for x in _own_walk(s)) or any(isinstance(x, (ast.FunctionDef, ast.ClassDef)) for x in s.body):
+                    continue
+                yield s, decos
+
+    def refs(scope_nodes, name, in_class, cname):
+        calls, other = [], 0
+        for root in scope_nodes:
+            for n in ast.walk(root):
+                if isinstance(n, ast.Call):
+                    f = n.func
+                    if (not in_class and isinstance(f, ast.Name) and f.id == name) or \
+                            (in_class and isinstance(f, ast.Attribute) and f.attr == name and isinstance(f.value, ast.Name) and f.value.id in ("self", "cls", cname)):
+                        calls.append(n)
+                if isinstance(n, ast.Name) and n.id == name and isinstance(n.ctx, ast.Load):
+                    other += 1
+                if isinstance(n, ast.Attribute) and n.attr == name and isinstance(n.ctx, ast.Load):
+                    other += 1
+        return calls, other
+
+    def do(body, in_class, cname, scope_nodes, local=False):
+        done = 0
+        for helper, decos in list(candidates(body, in_class, local)):
+            if helper.name in pinned:
+                continue
+            calls, other = refs(scope_nodes, helper.name, in_class, cname)
+            # every reference is a call; a helper used at several places is read in place at each of them (one per pass)
+            if not (1 <= len(calls) <= 10) or other != len(calls):
+                continue
+            if len(calls) > 1 and sum(1 for _x in ast.walk(helper) if isinstance(_x, ast.stmt)) > 14:
+                continue
+            call = calls[0]
+            # the call must be the whole value of a statement that sits directly in a block of another function
+            host = None
+            for fn in [n for root in scope_nodes for n in ast.walk(root) if isinstance(n, ast.FunctionDef) and n is not helper]:
+                for blk_owner in [fn] + [x for x in _own_walk(fn)]:
+                    for fld in ("body", "orelse", "finalbody"):
+                        blk = getattr(blk_owner, fld, None)
+                        if isinstance(blk, list):
+                            for i, st in enumerate(blk):
+                                if isinstance(st, (ast.Assign, ast.Expr, ast.Return)) and getattr(st, "value", None) is call:
+                                    host = (fn, blk, i, st)
+                                # `xs = [helper(..) for t in it]`: read as `xs = []` and a loop appending the helper's result
+                                elif isinstance(st, ast.Assign) and len(st.targets) == 1 and isinstance(st.targets[0], ast.Name) and isinstance(st.value, ast.ListComp) \
+                                        and st.value.elt is call and len(st.value.generators) == 1 and not st.value.generators[0].ifs \
+                                        and not st.value.generators[0].is_async:
+                                    host = (fn, blk, i, st)
+            if host is None:
+                continue
+            fn, blk, i, st = host
+            if any(x is call for x in ast.walk(helper)):
+                continue  # recursive
+            if any(isinstance(a, ast.Starred) for a in call.args) or any(k.arg is None for k in call.keywords):
+                continue
+            params = [a.arg for a in helper.args.args]
+            skip_first = in_class and "staticmethod" not in decos and not (isinstance(call.func.value, ast.Name) and call.func.value.id == cname and "classmethod" not in decos)
+            bind_params = params[1:] if (skip_first and params) else params
+            if len(call.args) > len(bind_params):
+                continue
+            values = dict(zip(bind_params, call.args))
+            for k in call.keywords:
+                if k.arg not in bind_params or k.arg in values:
+                    values = None
+                    break
+                values[k.arg] = k.value
+            if values is None:
+                continue
+            defaults = dict(zip(params[len(params) - len(helper.args.defaults):], helper.args.defaults))
+            for p_ in bind_params:
+                if p_ not in values:
+                    if p_ in defaults:
+                        values[p_] = defaults[p_]
+                    else:
+                        values = None
+                        break
+            if values is None:
+                continue
+            same = {p_ for p_, v in values.items() if isinstance(v, ast.Name) and v.id == p_}
+            hbody = _copy.deepcopy(helper.body)
+            if hbody and isinstance(hbody[0], ast.Expr) and isinstance(hbody[0].value, ast.Constant) and isinstance(hbody[0].value.value, str):
+                hbody = hbody[1:]
+            locals_ = {x.id for b in hbody for x in ast.walk(b) if isinstance(x, ast.Name) and isinstance(x.ctx, ast.Store)} | set(bind_params)
+            if skip_first and params:
+                # the receiver keeps its name when it is called the same in the host (self / cls)
+                if params[0] not in ("self", "cls") or not (isinstance(call.func.value, ast.Name) and call.func.value.id == params[0]):
+                    continue
+            # a parameter that the helper never rebinds and whose argument is a plain name / attribute chain / constant is
+            # replaced by that argument (reads in place); the others are bound by an assignment in front
+            stored = {x.id for b in hbody for x in ast.walk(b) if isinstance(x, ast.Name) and isinstance(x.ctx, (ast.Store, ast.Del))}
+
+            def pure(e):
+                return all(isinstance(x, (ast.Name, ast.Attribute, ast.Constant, ast.Load, ast.Subscript, ast.UnaryOp, ast.USub)) for x in ast.walk(e)) and \
+                    all(isinstance(x.slice, ast.Constant) for x in ast.walk(e) if isinstance(x, ast.Subscript))
+            subst = {p_: v for p_, v in values.items() if p_ not in same and p_ not in stored and pure(v)}
+
+            class _Subst(ast.NodeTransformer):
+                def visit_Name(self, n):
+                    if n.id in subst and isinstance(n.ctx, ast.Load):
+                        return ast.copy_location(_copy.deepcopy(subst[n.id]), n)
+                    return n
+            hbody = [_Subst().visit(b) for b in hbody]
+            same = same | set(subst)
+            rename = locals_ - same
+            ren = _RenameLocals(rename, "_inl")
+            hbody = [ren.visit(b) for b in hbody]
+            comp = isinstance(st, ast.Assign) and isinstance(st.value, ast.ListComp)
+            if comp:
+                acc = st.targets[0].id
+                sink = lambda e: [ast.copy_location(ast.Expr(value=ast.Call(func=ast.Attribute(value=ast.Name(id=acc, ctx=ast.Load()), attr="append", ctx=ast.Load()),
+                                                                            args=[e if e is not None else ast.Constant(value=None)], keywords=[])), st)]
+            elif isinstance(st, ast.Return):
+                sink = lambda e: [ast.copy_location(ast.Return(value=e), st)]
+            elif isinstance(st, ast.Assign):
+                sink = lambda e: [ast.copy_location(ast.Assign(targets=_copy.deepcopy(st.targets), value=e if e is not None else ast.Constant(value=None)), st)]
+            else:
+                sink = lambda e: ([ast.copy_location(ast.Expr(value=e), st)] if e is not None and not isinstance(e, (ast.Constant, ast.Name)) else [])
+            try:
+                new = _tailify(hbody, sink)
+            except _NoInline:
+                continue
+            binds = [ast.copy_location(ast.Assign(targets=[ast.Name(id=p_ + "_inl", ctx=ast.Store())], value=values[p_]), st) for p_ in bind_params if p_ not in same]
+            for b_ in binds + new:
+                for x_ in ast.walk(b_):
+                    x_._inl = helper.name
+            if comp:
+                g_ = st.value.generators[0]
+                loop = ast.copy_location(ast.For(target=g_.target, iter=g_.iter, body=binds + new, orelse=[]), st)
+                init = ast.copy_location(ast.Assign(targets=[ast.Name(id=acc, ctx=ast.Store())], value=ast.List(elts=[], ctx=ast.Load())), st)
+                blk[i:i + 1] = [init, loop]
+                inlined_names.append(helper.name)
+                done += 1
+                continue
+            blk[i:i + 1] = binds + new
+            inlined_names.append(helper.name)
+            done += 1
+        return done
+
+    n = do(tree.body, False, None, [tree])
+    for c in [x for x in ast.walk(tree) if isinstance(x, ast.ClassDef)]:
+        n += do(c.body, True, c.name, [c])
+    # helpers defined inside a function and called once in it
+    for fn_ in [x for x in ast.walk(tree) if isinstance(x, ast.FunctionDef)]:
+        if any(isinstance(y, ast.FunctionDef) for y in fn_.body):
+            n += do(fn_.body, False, None, [fn_], local=True)
+    return inlined_names if report else n
+
+
 _JUMPS = (ast.Return, ast.Raise, ast.Continue, ast.Break)
 
 
@@ -107,8 +351,15 @@ def _canon_block(stmts, fnode):
     return res
 
 
-def canonicalise(tree):
+def canonicalise(tree, relpath=None):
     tree = _Canon().visit(tree)
+    ast.fix_missing_locations(tree)
+    try:
+        for _ in range(24):
+            if not _inline_helpers(tree, relpath):
+                break
+    except RecursionError:
+        pass
     ast.fix_missing_locations(tree)
     for fn in [n for n in ast.walk(tree) if isinstance(n, (ast.FunctionDef, ast.AsyncFunctionDef))]:
         counts = {}
@@ -138,7 +389,7 @@ class Module:
         self.source = source
         self.is_pkg = is_pkg
         self.digest = hashlib.sha256(source.encode()).hexdigest()
-        self.tree = canonicalise(ast.parse(source, filename=relpath))
+        self.tree = canonicalise(ast.parse(source, filename=relpath), relpath)
         for parent in ast.walk(self.tree):
             for child in ast.iter_child_nodes(parent):
                 child._parent = parent  # type: ignore[attr-defined]
